@@ -367,12 +367,21 @@ def description_slots_rule(rep: Report, prog: Program, PROP: str, RULE: str) -> 
                                     f"a stale pending description is what `{side.lower()}Description` reports in the next negotiation round", construct=f"{side.lower()} slots after {typ}"))
 
 
+_IMPORT_DEPTH = [0]
+
+
 def import_rules(rep: Report, prog: Program, tier: str, PROP: str, RULE: str, module_name: str, only: List[str], what: str, min_instances: int) -> None:
     """Runs another property's rule module and reports the findings of the rules in `only` under RULE (shared mechanism)."""
     import importlib
+    if _IMPORT_DEPTH[0] > 0:
+        return  # rules imported by an imported module are not needed by the importer (and C01 <-> C02 import each other)
     mod = importlib.import_module(f"rules.{module_name}")
     sub = Report(module_name, tier, 0)
-    mod.run(sub, prog, tier)
+    _IMPORT_DEPTH[0] += 1
+    try:
+        mod.run(sub, prog, tier)
+    finally:
+        _IMPORT_DEPTH[0] -= 1
     rep.rule(RULE, what, min_instances=min_instances)
     n_ok = sum(r["discharged"] for k, r in sub.rules.items() if k in only)
     for f in sub.findings:
